@@ -25,6 +25,7 @@ props! {
     "C02" => c02,
     "C03" => c03,
     "C06" => c06,
+    "C07" => c07,
     "C08" => c08,
     "C09" => c09,
     "C13" => c13,
@@ -42,6 +43,7 @@ pub fn worker(prop: &str, args: &[String]) -> i32 {
     let Some(w) = WorkerArgs::parse(args) else { return 2 };
     match prop {
         "C06" => c06::worker(&w),
+        "C07" => c07::worker(&w),
         _ => 2,
     }
 }
